@@ -47,6 +47,9 @@ pub enum Variant {
     EntriesOnlyPass,
     /// the `search()` convenience call
     Conv,
+    /// PagedResults adapter; the server splits the item sequence into pages
+    Paged,
+    EntriesOnlyPaged,
 }
 
 #[derive(Clone, Copy, Debug, PartialEq, Eq, Hash, Serialize, Deserialize)]
@@ -71,12 +74,15 @@ pub struct Case {
     pub script: Vec<CallKind>,
     /// the server closes the connection after this many PDUs (None: sends everything)
     pub cut_after: Option<u8>,
+    /// page boundaries (item indices) for the paged variants
+    #[serde(default)]
+    pub page_cuts: Vec<u8>,
     pub sched: u64,
 }
 
 fn strat(_: &Ctx) -> BoxedStrategy<Case> {
     let item = (prop_oneof![4 => respgen::entry_resp(), 2 => respgen::reference_resp(), 2 => respgen::intermediate_resp()], proptest::option::weighted(0.4, resp_controls(2))).prop_map(|(resp, ctrls)| ItemSpec { resp, ctrls });
-    let variant = prop_oneof![3 => Just(Variant::Direct), 3 => Just(Variant::EntriesOnly), 1 => Just(Variant::Pass), 1 => Just(Variant::PassEntriesOnly), 1 => Just(Variant::EntriesOnlyPass), 2 => Just(Variant::Conv)];
+    let variant = prop_oneof![3 => Just(Variant::Direct), 3 => Just(Variant::EntriesOnly), 1 => Just(Variant::Pass), 1 => Just(Variant::PassEntriesOnly), 1 => Just(Variant::EntriesOnlyPass), 2 => Just(Variant::Conv), 2 => Just(Variant::Paged), 2 => Just(Variant::EntriesOnlyPaged)];
     let call = prop_oneof![5 => Just(CallKind::Next), 2 => Just(CallKind::Finish), 2 => Just(CallKind::State)];
     let script = prop_oneof![
         3 => vec(call, 1..=14),
@@ -89,8 +95,13 @@ fn strat(_: &Ctx) -> BoxedStrategy<Case> {
             v
         }),
     ];
-    (vec(item, 0..=8), respgen::small_res(), proptest::option::weighted(0.5, resp_controls(2)), variant, script, proptest::option::weighted(0.15, 0u8..9), any::<u64>())
-        .prop_map(|(items, fin, fin_ctrls, variant, script, cut_after, sched)| Case { items, fin, fin_ctrls, variant, script, cut_after, sched })
+    (vec(item, 0..=8), respgen::small_res(), proptest::option::weighted(0.5, resp_controls(2)), variant, script, proptest::option::weighted(0.15, 0u8..9), vec(0u8..9, 0..4), any::<u64>())
+        .prop_map(|(items, fin, fin_ctrls, variant, script, cut_after, page_cuts, sched)| {
+            let paged = matches!(variant, Variant::Paged | Variant::EntriesOnlyPaged);
+            // the final result of a paged search must not carry a second paging control of its own
+            let fin_ctrls = if paged { fin_ctrls.map(|v: Vec<RCtl>| v.into_iter().filter(|c| c.oid != crate::props::c16::PAGED_OID).collect()) } else { fin_ctrls };
+            Case { items, fin, fin_ctrls, variant, script, cut_after: if paged { None } else { cut_after }, page_cuts, sched }
+        })
         .boxed()
 }
 
@@ -133,7 +144,7 @@ fn ref_uris(r: &Resp) -> Vec<String> {
 
 /// Reference state machine (DESIGN.md Appendix B).
 fn model(c: &Case) -> Vec<Ret> {
-    let entries_only = matches!(c.variant, Variant::EntriesOnly | Variant::PassEntriesOnly | Variant::EntriesOnlyPass);
+    let entries_only = matches!(c.variant, Variant::EntriesOnly | Variant::PassEntriesOnly | Variant::EntriesOnlyPass | Variant::EntriesOnlyPaged);
     let avail = c.cut_after.map(|k| k as usize).unwrap_or(usize::MAX);
     let mut pos = 0usize; // index into items, items.len() = the final result
     let mut state = "Active";
@@ -226,6 +237,38 @@ pub fn check(case: &Case, obs: &mut Obs) -> Result<(), Fail> {
         let wire = conn.wire.clone();
         let c2 = c.clone();
         let srv = tokio::spawn(async move {
+            if matches!(c2.variant, Variant::Paged | Variant::EntriesOnlyPaged) {
+                // split the item sequence at the generated cut points and serve it page by page
+                let mut cuts: Vec<usize> = c2.page_cuts.iter().map(|c| (*c as usize).min(c2.items.len())).collect();
+                cuts.push(c2.items.len());
+                cuts.sort();
+                let mut start = 0usize;
+                let npages = cuts.len();
+                for (pi, end) in cuts.into_iter().enumerate() {
+                    let m = loop {
+                        match wire.recv().await {
+                            Recv::Msg(Ok(m), _, _) if matches!(m.req, crate::model::Req::Search { .. }) => break Some(m),
+                            Recv::Msg(..) => continue,
+                            _ => break None,
+                        }
+                    };
+                    let Some(m) = m else { return };
+                    quiesce().await;
+                    let mut bytes = Vec::new();
+                    for it in &c2.items[start..end] {
+                        bytes.extend_from_slice(&RespMsg { id: m.id, resp: it.resp.clone(), ctrls: it.ctrls.clone() }.encode());
+                    }
+                    start = end;
+                    let last = pi + 1 == npages;
+                    let cookie: Vec<u8> = if last { vec![] } else { format!("ck{}", pi).into_bytes() };
+                    let pc = RCtl { oid: crate::props::c16::PAGED_OID.into(), crit: crate::model::CritForm::Absent, val: Some(crate::props::c16::paged_value(0, &cookie)) };
+                    let (res, mut ctrls) = if last { (c2.fin.clone(), c2.fin_ctrls.clone().unwrap_or_default()) } else { (Res::ok("page"), vec![]) };
+                    ctrls.push(pc);
+                    bytes.extend_from_slice(&RespMsg { id: m.id, resp: Resp::result(5, res), ctrls: Some(ctrls) }.encode());
+                    wire.push(&bytes);
+                }
+                return;
+            }
             if let Recv::Msg(Ok(m), _, _) = wire.recv().await {
                 quiesce().await;
                 let mut bytes = Vec::new();
@@ -266,6 +309,11 @@ pub fn check(case: &Case, obs: &mut Obs) -> Result<(), Fail> {
                         Variant::Direct => ldap.streaming_search(base, Scope::Subtree, filter, attrs).await,
                         Variant::EntriesOnly => ldap.streaming_search_with(EntriesOnly::new(), base, Scope::Subtree, filter, attrs).await,
                         Variant::Pass => ldap.streaming_search_with(Pass, base, Scope::Subtree, filter, attrs).await,
+                        Variant::Paged => ldap.streaming_search_with(ldap3::adapters::PagedResults::new(3), base, Scope::Subtree, filter, attrs).await,
+                        Variant::EntriesOnlyPaged => {
+                            let ad: Vec<Box<dyn Adapter<_, _>>> = vec![Box::new(EntriesOnly::new()), Box::new(ldap3::adapters::PagedResults::new(3))];
+                            ldap.streaming_search_with(ad, base, Scope::Subtree, filter, attrs).await
+                        }
                         Variant::PassEntriesOnly => {
                             let ad: Vec<Box<dyn Adapter<_, _>>> = vec![Box::new(Pass), Box::new(EntriesOnly::new())];
                             ldap.streaming_search_with(ad, base, Scope::Subtree, filter, attrs).await
@@ -286,6 +334,8 @@ pub fn check(case: &Case, obs: &mut Obs) -> Result<(), Fail> {
             Ok(v) => v,
             Err(_) => vec![Ret::Panic(crate::runner::take_panics().into_iter().last().unwrap_or_default())],
         };
+        quiesce().await;
+        srv.abort();
         let _ = srv.await;
         got
     });
@@ -330,7 +380,7 @@ pub fn check(case: &Case, obs: &mut Obs) -> Result<(), Fail> {
     }
     let want = model(case);
     ensure!(got.len() == want.len(), "c10:script-length", "{} calls made, {} answered: {:?}", want.len(), got.len(), got.last());
-    let entries_only = matches!(case.variant, Variant::EntriesOnly | Variant::PassEntriesOnly | Variant::EntriesOnlyPass);
+    let entries_only = matches!(case.variant, Variant::EntriesOnly | Variant::PassEntriesOnly | Variant::EntriesOnlyPass | Variant::EntriesOnlyPaged);
     for (k, (g, w)) in got.iter().zip(&want).enumerate() {
         let call = case.script[k];
         let ok = match (g, w) {
@@ -341,6 +391,7 @@ pub fn check(case: &Case, obs: &mut Obs) -> Result<(), Fail> {
         };
         if !ok {
             let sig = match (call, g, w) {
+                (CallKind::Finish, Ret::Fin { rc, .. }, Ret::Synth(88)) if *rc != 88 && matches!(case.variant, Variant::Paged | Variant::EntriesOnlyPaged) => "c10:paged-early-finish-stale-result".to_string(),
                 (CallKind::State, Ret::State("Active"), Ret::State("Done")) if case.variant == Variant::Direct => "c10:direct-stream-never-done".to_string(),
                 (CallKind::State, _, _) => "c10:state".to_string(),
                 (CallKind::Next, _, _) => "c10:next".to_string(),
@@ -397,7 +448,7 @@ pub fn property() -> Property {
     Property {
         id: "C10",
         level: "exploration",
-        rule: "generated: a server item sequence (0-8 of entry / reference with 1-3 URIs / intermediate, each with 0-2 controls), a final result (any code, referrals, controls), optionally a connection cut after k PDUs; a stream variant (direct, EntriesOnly, user pass-through adapter, [pass-through, EntriesOnly], [EntriesOnly, pass-through], or the search() call); a call script of 1-14 calls from next/finish/state in any order (incl. next after the end, early finish, next after finish, double finish). Oracle: reference state machine of DESIGN.md Appendix B - every return value (items with their controls in server order, Ok(None), errors, finish() = server result iff read to the end else code 88, second finish code 80) and every state() equal the model; search(): entries in order, referral list = result referrals + all reference URIs as a multiset, intermediates dropped. Non-trivial: the script leaves the happy path or the item sequence mixes >=2 kinds. Distinct = debug rendering of the case.",
+        rule: "generated: a server item sequence (0-8 of entry / reference with 1-3 URIs / intermediate, each with 0-2 controls), a final result (any code, referrals, controls), optionally a connection cut after k PDUs; a stream variant (direct, EntriesOnly, user pass-through adapter, [pass-through, EntriesOnly], [EntriesOnly, pass-through], PagedResults and [EntriesOnly, PagedResults] with the item sequence served in generated pages, or the search() call); a call script of 1-14 calls from next/finish/state in any order (incl. next after the end, early finish, next after finish, double finish). Oracle: reference state machine of DESIGN.md Appendix B - every return value (items with their controls in server order, Ok(None), errors, finish() = server result iff read to the end else code 88, second finish code 80) and every state() equal the model; search(): entries in order, referral list = result referrals + all reference URIs as a multiset, intermediates dropped. Non-trivial: the script leaves the happy path or the item sequence mixes >=2 kinds. Distinct = debug rendering of the case.",
         assumptions: &["all PDUs of the search are delivered before the calls are made, so call results do not depend on timing", "synthetic results are compared by code only"],
         lanes: vec![Box::new(PLane { name: "streams", cases: |t| t.pick(2_000, 30_000), strat, check })],
         workers: (8, 16),
